@@ -9,7 +9,7 @@ from mc import alphabets as A
 from mc.refmodel import search as R
 
 PROPERTY = "C10"
-RULE = ("every strictly increasing array over {0..7} (bounded length) x every non-decreasing query multiset over the "
+RULE = ("every strictly increasing array over {0..7} and over {-3..4} (bounded length) x every non-decreasing query multiset over the "
         "half-integer lattice {-1..8} x fill on/off x list/ndarray input x 3 searches + dispatcher; float slice: "
         "affine images with queries at, +-1 ulp around, between and beyond the elements. An outcome signature is "
         "(function, len(x), returned index tuple); non-trivial = the returned indices are not all the same index "
@@ -23,7 +23,7 @@ EXPLANATION = "exhaustive enumeration of the bounded input lattice against the b
 
 def bounds(tier, seed):
     return {"array_len": (1, 5 if tier == "quick" else 6), "queries": (1, 3 if tier == "quick" else 4),
-            "float_slices": 4, "float_query_multiset": 2 if tier == "quick" else 3}
+            "float_slices": 5, "integer_offsets": [0, -3], "float_query_multiset": 2 if tier == "quick" else 3}
 
 
 def _impl():
@@ -108,10 +108,12 @@ def make_lattice_body(arrays, queries):
         x = ctx.choose(arrays, "x")
         fill = ctx.choose([True, False], "fill")
         as_array = ctx.choose([True, False], "as_array")
-        xf = [float(v) for v in x]
+        off = ctx.choose([0.0, -3.0], "offset")      # -3: zero and negative values inside the array
+        xf = [float(v) + off for v in x]
         xs = np.array(xf) if as_array else xf
         n = 0
-        for qf in qf_all:
+        for q0 in qf_all:
+            qf = [v + off for v in q0] if off else q0
             qs = np.array(qf) if as_array else qf
             for fn in FNS:
                 if fn.startswith("disp") and (not as_array):
@@ -147,7 +149,7 @@ def _ulp_queries(xf):
     return sorted(pts)
 
 
-IMAGES = [("x/3", lambda v: v / 3.0), ("0.1x+0.3", lambda v: 0.1 * v + 0.3), ("1e-8x", lambda v: 1e-8 * v),
+IMAGES = [("x-2", lambda v: v - 2.0), ("x/3", lambda v: v / 3.0), ("0.1x+0.3", lambda v: 0.1 * v + 0.3), ("1e-8x", lambda v: 1e-8 * v),
           ("1e8+x/2", lambda v: 1e8 + v / 2.0)]
 
 
